@@ -291,6 +291,33 @@ def bumper_rule(ck, prog, report=None):
                 leads_to_ovr = bool(reach & rets) and all(True for _ in [0])
                 if all(fn.dominates(gb, st["_bb"]) for st in stores) and eq_succ not in body:
                     ok = True
+            # the same holds for every other write into dest that happens inside an iteration -- the terminator / slack clearing of the exits taken from
+            # within the body: region = blocks dominated by the first body block (the normal loop exit through the header is not part of it)
+            if ok:
+                inside_succ = [sc for sc in fn.succ[h] if sc in body]
+                if len(inside_succ) == 1:
+                    b0 = inside_succ[0]
+                    gset = [gb for (gb, eq_succ) in guards if eq_succ not in body]
+                    for b in fn.order:
+                        if not fn.dominates(b0, b):
+                            continue
+                        for i in fn.blocks[b]["insts"]:
+                            w = None
+                            if i["op"] == "store" and labels_of(i["ops"][1], dd, None):
+                                w = "store"
+                            elif i["op"] in ("call", "invoke") and (i.get("callee") or "").startswith(("llvm.memset", "memset", "handle_error", "handle_werror", "wmemset")) \
+                                    and i.get("args") and labels_of(i["args"][0], dd, None):
+                                w = "call " + i["callee"]
+                            if w and not any(fn.dominates(gb, b) and gb != b for gb in gset):
+                                ok = None
+                                report("C07:write-before-bumper:%s:loop@%s:%s" % (api.base_name(name), "dest<src" if nloops % 2 else "dest>=src", w.replace(" ", "-")), "O-bumper-guards-store",
+                                       fn.loc(i), "%s: inside a copy-loop iteration a %s into dest happens before the moving cursor was compared with the fixed start of the other operand "
+                                       "(the terminator / slack clearing can land in the source)" % (api.base_name(name), w))
+                                break
+                        if ok is None:
+                            break
+                    if ok is None:
+                        continue
             if not ok:
                 report("C07:bumper-missing:%s:loop@%s" % (api.base_name(name), "dest<src" if nloops % 2 else "dest>=src"), "O-bumper-guards-store",
                        "%s:%s" % (fn.file, stores[0].get("line")),
